@@ -82,6 +82,10 @@ T = {
                 technique="runtime monitor: bitwise round trip of checkpoints through an mpio-emulating h5py layer between different process counts, hyperslab partition check, constants round trip under key permutations and symbolic expressions, checkpoint selection, split-vs-unsplit runs of the real driver",
                 text="Writer/reader process counts 1-6, all three layouts plus the complex potential, restart set-up with and without layout change; constants with perturbed values and non-midpoint peak radius; checkpoint times of 1-7 digits; driver continuity for save intervals 1-4 and all splits N+M<=4 on 1, 2 and 4 ranks.",
                 note=SIM + "; parallel HDF5 is emulated (collective metadata with equal arguments, disjoint independent hyperslab writes)"),
+    "C19": dict(level="translation_validation", engine="scratch pyccel build + sanitizers", design="3/C19",
+                technique="runtime differential testing of every exported kernel: compiled (documented pyccel build of the working tree in a scratch copy; Fortran, thorough also C) vs interpreted source on generated argument streams; same stream and end-to-end workloads under gfortran -fcheck=all + ASan + UBSan; numba/pythran source copies executed as plain Python against the pyccel sources",
+                text="Each run rebuilds the five accelerated modules from the current working tree (a failing documented build is a violation), compares all 38 public kernels compiled-vs-interpreted with c*eps*scale tolerances (integers exactly), runs the stream under the bounds checker and sanitizers (reports counted from logs), and compares the numba/pythran copies function by function.",
+                note="numba-AOT and pythran compilers are not installed: only the Python semantics of those copies are covered; sanitizer coverage limited to the generated workloads; builds use the documented Makefile flow"),
     "C20": dict(level="exploration", engine="direct+simmpi", design="3/C20",
                 technique="runtime oracle: brute-force divisor enumeration (exhaustive box + random), sys.monitoring line budget for termination, layouts built and transposed on the chosen grid under simulated MPI",
                 text="Exhaustive comparison with brute force inside a bounded box, random sampling far beyond, termination judged in executed lines; the chosen grid is used to build and exercise the standard layouts.",
